@@ -34,6 +34,12 @@ const (
 	kMixedBig // integers beyond 2^53 mixed with floats: outside the proved domain (F18)
 	kBigInt   // integers only, many of them beyond 2^53 and adjacent (their float64 images coincide)
 	kDateFmt  // datetimes written in the session's own @@DATETIME_FORMAT (alphabetical order ≠ chronological order)
+	kDateFar  // datetimes (values and texts) centuries apart: their UnixNano keys differ by more than 2^63
+	// --strict-equal columns (strict.go): under the flag two texts compare as texts, everything else by its type
+	kSText  // texts only: letter-case twins, padded twins, numbers / booleans / datetimes / special words written as texts
+	kSNum   // integers and floats as values: 1 next to 1.0 ties in the sort but is not identical
+	kSMixed // '01' / '1' / 1 / 1.0 / TRUE / 'true': texts next to numbers — outside the proved domain, small tables only
+	kSDate  // datetimes as VALUES only, centuries apart (a datetime written as a text is a text under the flag: kSText)
 )
 
 const customDatetimeFormat = "%b %e, %Y"
@@ -58,7 +64,8 @@ func colVal(g *hc.Gen, kind int) value.Primary {
 		}
 		return value.NewInteger(int64(g.Intn(3)))
 	case kBigInt:
-		base := []int64{1 << 53, 1 << 60, math.MaxInt64 - 8, -(1 << 53) - 8, math.MinInt64 + 1}[g.Intn(5)]
+		// … and more than 2^63 apart (both signs): a comparison by the sign of a−b wraps there
+		base := []int64{1 << 53, 1 << 60, math.MaxInt64 - 8, -(1 << 53) - 8, math.MinInt64 + 1, 6000000000000000000, -6000000000000000000, 4611686018427387904, -4611686018427387905}[g.Intn(9)]
 		return value.NewInteger(base + int64(g.Intn(8)))
 	case kMixedBig:
 		switch g.Intn(3) {
@@ -68,6 +75,20 @@ func colVal(g *hc.Gen, kind int) value.Primary {
 			return value.NewFloat(9007199254740992)
 		}
 		return value.NewInteger(int64(g.Intn(3)))
+	case kDateFar:
+		return farDate(g)
+	case kSText:
+		return value.NewString(g.Pick(strictTexts...))
+	case kSNum:
+		return strictNum(g)
+	case kSMixed:
+		return strictMixed(g)
+	case kSDate:
+		for {
+			if d, ok := farDate(g).(*value.Datetime); ok {
+				return d
+			}
+		}
 	case kDateFmt:
 		return value.NewString(g.Pick("Feb 3, 2013", "Jan 15, 2012", "Dec 1, 2013", "Apr 9, 2011", "Mar 20, 2012", "Feb 3, 2013", "Aug 30, 2010"))
 	case kDate:
@@ -80,7 +101,9 @@ func colVal(g *hc.Gen, kind int) value.Primary {
 		}
 		return value.NewString(t.Format(time.RFC3339Nano))
 	}
-	return value.NewString(g.Pick("a", "A", "b", " b", "ab", "abc", "B", "", "é", "zz", "x:y", "apple", "Apple "))
+	// … and words that some conversion might take for a boolean / a number / a datetime but that are plain texts
+	return value.NewString(g.Pick("a", "A", "b", " b", "ab", "abc", "B", "", "é", "zz", "x:y", "apple", "Apple ",
+		"yes", "no", "on", "off", "y", "n", "Yes", "NO", "null", "none", "nil", "0x10", "1_000", "1,5", "tru", "nope", "infinit", "na"))
 }
 
 func idsOf(v *query.View) []int {
@@ -117,6 +140,7 @@ func run(seed int64, n int, dir string, _ []string) {
 	}
 
 	sortValueOf(g, o, pr, 6*n)
+	lessPairs(g, o, pr, 3*n)
 
 	tables := n / 12
 	if tables < 5 {
@@ -124,8 +148,12 @@ func run(seed int64, n int, dir string, _ []string) {
 	}
 	for t := 0; t < tables; t++ {
 		ncols := g.Intn(3) + 1
+		// every third table runs under --strict-equal, over columns of the strict pools (strict.go)
+		strict := t > 0 && (t == 1 || g.Intn(3) == 0)
+		setStrict(pr, strict)
 		kinds := make([]int, ncols)
 		mixed := false
+		mixedS := false
 		for j := range kinds {
 			kinds[j] = g.Intn(3)
 			if g.Intn(6) == 0 {
@@ -138,8 +166,21 @@ func run(seed int64, n int, dir string, _ []string) {
 			if g.Intn(12) == 0 {
 				kinds[j] = kDateFmt
 			}
+			if g.Intn(10) == 0 {
+				kinds[j] = kDateFar
+			}
+			if strict {
+				kinds[j] = []int{kSText, kSText, kSText, kSNum, kSNum, kBigInt, kSDate, kSMixed}[g.Intn(8)]
+				mixed = false
+				if kinds[j] == kSMixed {
+					mixedS = true
+				}
+			}
 		}
 		nrows := []int{0, 1, 2, 3, 6, 12, 40, 170, 350}[g.Intn(9)]
+		if mixedS && nrows > 12 {
+			nrows = 3 + g.Intn(10)
+		}
 		rows := make([][]value.Primary, nrows)
 		for i := range rows {
 			rows[i] = make([]value.Primary, ncols)
@@ -157,6 +198,14 @@ func run(seed int64, n int, dir string, _ []string) {
 			ncols, mixed, nrows = 1, true, 3
 			rows = [][]value.Primary{{value.NewInteger(9007199254740993)}, {value.NewFloat(9007199254740992)}, {value.NewInteger(9007199254740992)}}
 		}
+		if t == 1 {
+			// corpus: the witness of finding F116 (fixed) — letter-case twins in the first key, a second key DESC
+			ncols, mixed, mixedS, nrows = 2, false, false, 7
+			rows = nil
+			for i, k := range []string{"x", "X", "x", "X", "a", " X", "x "} {
+				rows = append(rows, []value.Primary{value.NewString(k), value.NewInteger(int64(i % 3))})
+			}
+		}
 		cols := make([]string, ncols)
 		for j := range cols {
 			cols[j] = fmt.Sprintf("c%d", j+1)
@@ -168,10 +217,16 @@ func run(seed int64, n int, dir string, _ []string) {
 		pr.SetCPU([]int{1, 2, 4, 8}[g.Intn(4)])
 		// ORDER BY items
 		nitems := g.Intn(ncols) + 1
+		if strict && g.Intn(2) == 0 {
+			nitems = ncols // a following key after the letter-case twins
+		}
 		perm := g.Perm(ncols)
 		colIdx := append([]int{}, perm[:nitems]...)
+		if t == 1 {
+			nitems, colIdx = 2, []int{0, 1}
+		}
 		// a column may be listed more than once (also next to a later key with another direction / NULLS position)
-		if t > 0 && g.Intn(3) == 0 {
+		if t > 1 && g.Intn(3) == 0 {
 			at := 1 + g.Intn(len(colIdx))
 			rep := colIdx[g.Intn(at)]
 			colIdx = append(colIdx[:at], append([]int{rep}, colIdx[at:]...)...)
@@ -200,6 +255,9 @@ func run(seed int64, n int, dir string, _ []string) {
 			}
 			itemToks[k], itemSQL[k] = d+np, sql
 		}
+		if t == 1 {
+			itemToks, itemSQL = []string{"a-", "d-"}, []string{"c1", "c2 DESC"}
+		}
 		orderBy := " ORDER BY " + strings.Join(itemSQL, ", ")
 		sortCells := func(id int) string {
 			s := make([]string, 0, nitems+1)
@@ -218,7 +276,7 @@ func run(seed int64, n int, dir string, _ []string) {
 		plist := strings.Join(pcols, ", ")
 		ca, cb := cols[g.Intn(ncols)], cols[g.Intn(ncols)]
 		shape := []int{0, 0, 1, 2, 2, 2, 2, 3, 3, 4, 5, 6, 7, 7, 8}[g.Intn(15)]
-		if t == 0 {
+		if t <= 1 {
 			shape = 0
 		}
 		keep := func(id int) bool { return true }
@@ -282,11 +340,19 @@ func run(seed int64, n int, dir string, _ []string) {
 			rowToks[i] = sortCells(id)
 		}
 		head := "c07.sorted"
+		cutHead := "c07.cut"
 		if mixed {
 			head = "c07.sorted_mixed" // outside the proved domain: reported under its own signature
 		}
+		if strict {
+			head, cutHead = "c07.strict_sorted", "c07.strict_cut"
+			if mixedS {
+				head = "c07.strict_sorted_mixed"
+			}
+			o.Count("strict_tables")
+		}
 		o.Case(fmt.Sprintf("%s %s %d %s", head, strings.Join(itemToks, ","), nitems, strings.Join(rowToks, " ")), "sorted")
-		o.NonTrivial(fmt.Sprintf("sorted:%v:%d:%d:%v:%d", itemToks, nrows/50, ncols, mixed, shape))
+		o.NonTrivial(fmt.Sprintf("sorted:%v:%d:%d:%v:%d:%v", itemToks, nrows/50, ncols, mixed, shape, strict))
 		o.Count(fmt.Sprintf("rows~%d", nrows/100*100))
 
 		if mixed {
@@ -380,8 +446,8 @@ func run(seed int64, n int, dir string, _ []string) {
 				o.Law("limit_internal_error", map[string]interface{}{"sql": sql, "rows": nrows, "error": err.Error()})
 				got = "PANIC"
 			}
-			o.Case(fmt.Sprintf("c07.cut %s %d %d %s %s %d %s", strings.Join(itemToks, ","), nitems, wt, kind, limTok, off, strings.Join(rowToks, " ")), got)
-			o.NonTrivial(fmt.Sprintf("cut:%s:%d:%s:%d:%d", kind, wt, limTok, off, nrows/20))
+			o.Case(fmt.Sprintf("%s %s %d %d %s %s %d %s", cutHead, strings.Join(itemToks, ","), nitems, wt, kind, limTok, off, strings.Join(rowToks, " ")), got)
+			o.NonTrivial(fmt.Sprintf("cut:%s:%d:%s:%d:%d:%v", kind, wt, limTok, off, nrows/20, strict))
 			o.Count("cut:" + kind)
 		}
 		// without an ORDER BY clause of its own a query has no ties: WITH TIES keeps exactly n rows, the first n
@@ -432,6 +498,7 @@ func run(seed int64, n int, dir string, _ []string) {
 		}
 		pr.DisposeTable("t")
 	}
+	setStrict(pr, false)
 
 	// LIMIT p PERCENT over a dense grid of (row count, percentage): the number of rows kept must be
 	// ceil(float64(N) * p / 100) in the code's own float arithmetic (model: limitPercent)
@@ -480,6 +547,24 @@ func litInt(i int) string {
 	return strconv.Itoa(i)
 }
 
+func svText(sv *query.SortValue) string {
+	switch sv.Type {
+	case query.NullType:
+		return "N"
+	case query.IntegerType:
+		return fmt.Sprintf("I %d %s x%s", sv.Integer, hc.EncF(sv.Float), hc.Hex(sv.String))
+	case query.FloatType:
+		return fmt.Sprintf("F %s x%s", hc.EncF(sv.Float), hc.Hex(sv.String))
+	case query.DatetimeType:
+		return fmt.Sprintf("D %d", sv.Datetime)
+	case query.BooleanType:
+		return fmt.Sprintf("B %d", sv.Integer)
+	case query.StringType:
+		return "S x" + hc.Hex(sv.String)
+	}
+	return fmt.Sprintf("?%d", sv.Type)
+}
+
 // sortValueOf: NewSortValue itself — the type it decides on and every field it stores (the integer, its float image,
 // the text a number keeps for the comparison with a string, the datetime's nanoseconds, the boolean) — against the
 // model's toSortVal, for values of every class and kind.
@@ -499,27 +584,28 @@ func sortValueOf(g *hc.Gen, o *hc.Out, pr *hc.Proc, n int) {
 		case 4:
 			v = value.NewDatetime(time.Unix(int64(g.Intn(4000000000))-1000000000, int64(g.Intn(3))*500000000).UTC())
 		case 5:
-			v = value.NewString(g.Pick("1", " 2 ", "+3", "-0", "0x10", "1e3", "1_000", "2.50", " nan", "Inf", "-inf", "true", "F", " t ", "abc", " Abc ", "", " ", "2012-02-03", "2012-02-03 04:05:06", "2012-02-03T04:05:06Z", "Feb 3, 2012", "straße", "ǆ"))
+			v = value.NewString(g.Pick("1", " 2 ", "+3", "-0", "0x10", "1e3", "1_000", "2.50", " nan", "Inf", "-inf", "true", "F", " t ", "abc", " Abc ", "", " ", "2012-02-03", "2012-02-03 04:05:06", "2012-02-03T04:05:06Z", "Feb 3, 2012", "straße", "ǆ",
+				// every word some conversion might take for a boolean / a number / a datetime: the model's own conversions
+				// (Model/Text, ParseFloat, ParseTime) decide the rung, not the implementation's answer
+				"yes", "no", "on", "off", "y", "n", "Y", "N", "Yes", "NO", "On", "OFF", "t", "f", "T", "true", "false", "True", "FALSE", "tRUE", "1", "0",
+				"nan", "NaN", "NAN", "inf", "+inf", "-Inf", "infinity", "+Infinity", "-INFINITY", "infinit", "null", "NULL", "none", "nil", "unknown", "UNKNOWN",
+				"0x10", "0X1P4", "0x1p-2", "1e3", "1E3", "1e", "e3", ".5", "5.", ".", "+", "-", "1_0", "0b11", "0o7", "007", "+07", "1,000", "१२",
+				"2012", "20120203", "2012-02", "12:30", "12:30:00", "2012-2-3", "2012/02/03", "1700-03-01", "2200-03-01", "2262-04-12", "1677-09-21", "now", "today"))
 		default:
-			v = colVal(g, []int{kNum, kDate, kText, kMixedBig, kBigInt, kDateFmt}[g.Intn(6)])
+			v = colVal(g, []int{kNum, kDate, kText, kMixedBig, kBigInt, kDateFmt, kDateFar, kSText, kSNum, kSMixed}[g.Intn(10)])
 		}
-		sv := query.NewSortValue(v, flags)
-		var got string
-		switch sv.Type {
-		case query.NullType:
-			got = "N"
-		case query.IntegerType:
-			got = fmt.Sprintf("I %d %s x%s", sv.Integer, hc.EncF(sv.Float), hc.Hex(sv.String))
-		case query.FloatType:
-			got = fmt.Sprintf("F %s x%s", hc.EncF(sv.Float), hc.Hex(sv.String))
-		case query.DatetimeType:
-			got = fmt.Sprintf("D %d", sv.Datetime)
-		case query.BooleanType:
-			got = fmt.Sprintf("B %d", sv.Integer)
-		case query.StringType:
-			got = "S x" + hc.Hex(sv.String)
-		default:
-			got = fmt.Sprintf("?%d", sv.Type)
+		got := svText(query.NewSortValue(v, flags))
+		if k%3 == 0 {
+			// the same value under --strict-equal: the typed fields stay, SerializedKey is added
+			setStrict(pr, true)
+			sv := query.NewSortValue(v, pr.P.Tx.Flags)
+			setStrict(pr, false)
+			kb := "nil"
+			if sv.SerializedKey != nil {
+				kb = "k" + hc.Hex(string(sv.SerializedKey.Bytes()))
+			}
+			o.Case("c07.strict_sv "+cellTok(v), svText(sv)+" "+kb)
+			o.Count("strict_sv")
 		}
 		o.Case("c07.sv "+cellTok(v), got)
 		o.NonTrivial("sv:" + got[:1] + hc.EncVal(v)[:1])
